@@ -31,7 +31,7 @@ type Tx struct {
 }
 
 // Op kinds: root (G,Ts,Th) | new (T=parent,Ts,Th) | add (T,Txs,Force) | commit (T)
-// | has (T,ID,Ts) | mhas (G,ID,Ts) | snap
+// | has (T,ID,Ts) | mhas (G,ID,Ts) | snap | restart (a new manager over the same database)
 type Op struct {
 	K     string `json:"k"`
 	G     int    `json:"g,omitempty"`
@@ -131,6 +131,8 @@ type tinfo struct {
 	recorded []Tx // what the tracker recorded (first cnt transactions of the effective Add)
 	hasChild bool
 	added    bool
+	dead     bool // object of a process that was restarted since
+	restarts int  // number of restarts at the time the tracker was committed (-1: not committed)
 }
 
 type runner struct {
@@ -139,6 +141,9 @@ type runner struct {
 	tim     service.TXIDManager
 	tsc     *service.TxTimestampChecker
 	bk      db.Bucket
+	dbase   db.Database
+	nrest   int
+	hidden  string // replay explained by a restart that lost the bound of older data
 	trs     []*tinfo
 	idTs    map[int]int64
 	idG     map[int]int
@@ -167,7 +172,7 @@ func newRunner(h Hist) *runner {
 	if err != nil {
 		panic(err)
 	}
-	r := &runner{h: h, lm: lm, bk: bk, idTs: map[int]int64{}, idG: map[int]int{}, ids: map[int]bool{}}
+	r := &runner{h: h, lm: lm, bk: bk, dbase: dbase, idTs: map[int]int64{}, idG: map[int]int{}, ids: map[int]bool{}}
 	current = r
 	if h.Svc {
 		r.tsc = service.NewTimestampChecker()
@@ -236,18 +241,66 @@ func (r *runner) exec(op Op) {
 		} else {
 			t = dirTrk{r.lm.NewTracker(g, r.height, op.Ts, op.Th)}
 		}
-		r.trs = append(r.trs, &tinfo{t: t, gparent: -1, group: op.G, ts: op.Ts, th: op.Th})
+		r.trs = append(r.trs, &tinfo{t: t, gparent: -1, group: op.G, ts: op.Ts, th: op.Th, restarts: -1})
 		r.evs = append(r.evs, fmt.Sprintf("EOp (ONewRoot %s %s %s) RNone", coqBoolG(op.G), hxlib.CoqZ(op.Ts), hxlib.CoqZ(op.Th)))
 	case "new":
 		r.height++
 		p := r.trs[op.T]
 		p.hasChild = true
-		t := p.t.New(r.height, op.Ts, op.Th)
-		r.trs = append(r.trs, &tinfo{t: t, gparent: op.T, group: p.group, ts: op.Ts, th: op.Th})
+		var t trk
+		if p.dead {
+			// the object is gone: continuing from a block of the old process is
+			// manager.NewTracker on the new manager (what tracker.New does on a
+			// committed parent-less tracker)
+			g := module.TransactionGroup(p.group)
+			if r.h.Svc {
+				r.tsc.SetThreshold(time.Duration(op.Th) * time.Microsecond)
+				t = svcTrk{r.tim.NewLogger(g, r.height, op.Ts)}
+			} else {
+				t = dirTrk{r.lm.NewTracker(g, r.height, op.Ts, op.Th)}
+			}
+		} else {
+			t = p.t.New(r.height, op.Ts, op.Th)
+		}
+		r.trs = append(r.trs, &tinfo{t: t, gparent: op.T, group: p.group, ts: op.Ts, th: op.Th, restarts: -1})
 		r.evs = append(r.evs, fmt.Sprintf("EOp (ONew %s %s %s) RNone", hxlib.CoqNat(op.T), hxlib.CoqZ(op.Ts), hxlib.CoqZ(op.Th)))
 	case "add":
 		r.execAdd(op)
+	case "restart":
+		// a new locator manager (and TXID manager) over the same database
+		txlocator.VerifWaitFlush(r.lm)
+		r.lm.Term()
+		lg := log.New()
+		lg.SetLevel(log.FatalLevel)
+		lm, err := txlocator.NewManager(r.dbase, lg)
+		if err != nil {
+			panic(err)
+		}
+		lm.Start()
+		r.lm = lm
+		if r.h.Svc {
+			r.tsc = service.NewTimestampChecker()
+			if r.tim, err = service.NewTXIDManager(lm, r.tsc, nil); err != nil {
+				panic(err)
+			}
+		}
+		r.nrest++
+		for _, ti := range r.trs {
+			if !ti.dead && ti.restarts < 0 {
+				ti.recorded = nil // not finalized: the block is lost
+			}
+			ti.dead = true
+		}
+		r.evs = append(r.evs, "EOp ORestart RNone")
 	case "commit":
+		if r.trs[op.T].dead {
+			return
+		}
+		for _, a := range append([]int{op.T}, r.ancestors(op.T)...) {
+			if r.trs[a].restarts < 0 && !r.trs[a].dead {
+				r.trs[a].restarts = r.nrest
+			}
+		}
 		err := r.trs[op.T].t.Commit()
 		if !r.h.NoWait {
 			txlocator.VerifWaitFlush(r.lm)
@@ -261,6 +314,9 @@ func (r *runner) exec(op Op) {
 		}
 		r.evs = append(r.evs, fmt.Sprintf("EOp (OCommit %s) %s", hxlib.CoqNat(op.T), res))
 	case "has":
+		if r.trs[op.T].dead {
+			return
+		}
 		b, err := r.trs[op.T].t.Has(idBytes(op.ID), op.Ts)
 		res := "(RBool " + hxlib.CoqBool(b) + ")"
 		if err != nil {
@@ -289,6 +345,9 @@ func (r *runner) exec(op Op) {
 
 func (r *runner) execAdd(op Op) {
 	ti := r.trs[op.T]
+	if ti.dead {
+		return
+	}
 	l := &dummyList{}
 	for _, tx := range op.Txs {
 		l.txs = append(l.txs, &dummyTx{id: idBytes(tx.ID), ts: tx.Ts, g: module.TransactionGroup(ti.group)})
@@ -344,8 +403,9 @@ func (r *runner) execAdd(op Op) {
 	// which ancestors are still uncommitted, as the implementation sees it, before the Add
 	openAnc := map[int]bool{}
 	for _, a := range r.ancestors(op.T) {
-		openAnc[a] = txlocator.VerifTrackerOpen(r.trs[a].t.Raw())
+		openAnc[a] = !r.trs[a].dead && txlocator.VerifTrackerOpen(r.trs[a].t.Raw())
 	}
+	maxTS := txlocator.VerifManagerState(r.lm).MaxTS[ti.group]
 
 	cnt, err := ti.t.Add(l, op.Force)
 	cls := addClass(err)
@@ -394,15 +454,28 @@ func (r *runner) execAdd(op Op) {
 		// still uncommitted (so only the guard of tracker.Has kept it from being found: a strict
 		// `>` would have found it, the timestamp being inside that block's window) and the
 		// timestamp equals that block's ts+th
-		allBound := true
+		// ... or by a restart: the occurrence was finalized by a process that has been
+		// restarted since, and its timestamp is above the maxTSInDB the new manager has built up
+		// (the bound of older data is unknown to it)
+		allBound, anyRestart := true, -1
 		for _, a := range occ {
 			ai := r.trs[a]
-			if !(openAnc[a] && x.Ts == ai.ts+ai.th) {
+			switch {
+			case openAnc[a] && x.Ts == ai.ts+ai.th:
+			case ai.dead && ai.restarts >= 0 && ai.restarts < r.nrest && maxTS != 0 && x.Ts > maxTS:
+				anyRestart = a
+			default:
 				allBound = false
 			}
 		}
 		a := r.trs[occ[0]]
-		if allBound {
+		if allBound && anyRestart >= 0 {
+			b := r.trs[anyRestart]
+			if r.hidden == "" {
+				r.hidden = fmt.Sprintf("replay accepted, restart hides larger pre-restart bound: id %d (timestamp %d) finalized in block #%d (bts %d, th %d) before a restart of the locator manager was accepted again by Add(force=false) in block #%d (bts %d, th %d); maxTSInDB of the new manager is %d",
+					x.ID, x.Ts, anyRestart, b.ts, b.th, op.T, ti.ts, ti.th, maxTS)
+			}
+		} else if allBound {
 			if r.known == "" {
 				r.known = fmt.Sprintf("replay accepted at ts==bts+th: id %d (ts %d) recorded in uncommitted block #%d (bts %d, th %d) was accepted again by Add(force=false) in its descendant #%d (bts %d, th %d)",
 					x.ID, x.Ts, occ[0], a.ts, a.th, op.T, ti.ts, ti.th)
@@ -484,13 +557,19 @@ func opOK(r *runner, op Op) bool {
 	switch op.K {
 	case "new", "add", "commit", "has":
 		return op.T >= 0 && op.T < len(r.trs)
+	case "root", "mhas", "snap", "restart":
+		return true
+	default:
+		return false
 	}
-	return true
 }
 
 func (r *runner) oracle() string {
 	if r.violation != "" {
 		return r.violation
+	}
+	if r.hidden != "" {
+		return r.hidden
 	}
 	return r.known
 }
@@ -547,9 +626,15 @@ func (g *gen) replayTarget(p int, wide bool) (Tx, bool) {
 		for _, x := range g.r.trs[a].recorded {
 			// skip ids that sit at ts==bts+th of a still uncommitted block of the chain:
 			// the known finding gets its own few cases
+			// ... and ids finalized before a restart whose timestamp is above the new manager's maxTSInDB
+			if ai := g.r.trs[a]; ai.dead && ai.restarts >= 0 {
+				if m := txlocator.VerifManagerState(g.r.lm).MaxTS[ai.group]; m != 0 && x.Ts > m {
+					continue next
+				}
+			}
 			for _, b := range chain {
 				bi := g.r.trs[b]
-				if x.Ts == bi.ts+bi.th && txlocator.VerifTrackerOpen(bi.t.Raw()) {
+				if x.Ts == bi.ts+bi.th && !bi.dead && txlocator.VerifTrackerOpen(bi.t.Raw()) {
 					for _, y := range bi.recorded {
 						if y.ID == x.ID {
 							continue next
@@ -709,6 +794,12 @@ func genHist(rnd *rand.Rand, valid, svc, nowait bool) *runner {
 				gg = 1 - grp
 			}
 			g.do(Op{K: "mhas", G: gg, ID: id, Ts: ts})
+		case k >= 96 && k < 98 && valid && rnd.Intn(2) == 0: // the node restarts
+			g.do(Op{K: "restart"})
+			g.do(Op{K: "snap"})
+		case k < 94 && !valid && rnd.Intn(3) == 0:
+			g.do(Op{K: "restart"})
+			g.do(Op{K: "snap"})
 		case k < 96 && !valid: // a second root (other group now and then), Add again, Add after Commit
 			g2 := grp
 			if rnd.Intn(2) == 0 {
@@ -757,9 +848,59 @@ func genBound(rnd *rand.Rand, svc bool) *runner {
 	return r
 }
 
+// restart + threshold decrease in a few shapes: X finalized under a large threshold, the node
+// restarts, the first list of the new manager (small threshold) is evicted, X is offered again
+func genRestart(rnd *rand.Rand, svc bool) *runner {
+	r := newRunner(Hist{Svc: svc})
+	defer r.close()
+	g := &gen{rnd: rnd, r: r, valid: true}
+	g.do(Op{K: "root", G: 1, Ts: 50, Th: 10})
+	bts, th0, th1 := int64(100+rnd.Intn(20)), int64(40+rnd.Intn(40)), int64(2+rnd.Intn(6))
+	g.do(Op{K: "new", T: 0, Ts: bts, Th: th0})
+	x := Tx{7, bts + th0 - 1 - int64(rnd.Intn(8))}
+	g.do(Op{K: "add", T: 1, Txs: []Tx{{6, bts}, x}})
+	g.do(Op{K: "commit", T: 1})
+	if rnd.Intn(2) == 0 { // an unfinalized block is lost with the old process
+		g.do(Op{K: "new", T: 1, Ts: bts + 1, Th: th0})
+		g.do(Op{K: "add", T: 2, Txs: []Tx{{5, bts + 1}}})
+	}
+	g.do(Op{K: "restart"})
+	g.do(Op{K: "snap"})
+	tip := 1
+	b1 := bts + 1 + int64(rnd.Intn(3))
+	g.do(Op{K: "new", T: tip, Ts: b1, Th: th1})
+	tip = len(r.trs) - 1
+	g.do(Op{K: "add", T: tip, Txs: []Tx{{8, b1}}})
+	g.do(Op{K: "commit", T: tip})
+	g.do(Op{K: "mhas", G: 1, ID: 7, Ts: x.Ts})
+	b2 := b1 + 2*th1 + int64(rnd.Intn(3))
+	g.do(Op{K: "new", T: tip, Ts: b2, Th: th1})
+	tip = len(r.trs) - 1
+	g.do(Op{K: "add", T: tip})
+	g.do(Op{K: "commit", T: tip})
+	g.do(Op{K: "snap"})
+	g.do(Op{K: "mhas", G: 1, ID: 7, Ts: x.Ts})
+	g.do(Op{K: "new", T: tip, Ts: x.Ts - int64(rnd.Intn(int(th1))), Th: th1})
+	tip = len(r.trs) - 1
+	g.do(Op{K: "has", T: tip, ID: 7, Ts: x.Ts})
+	g.do(Op{K: "add", T: tip, Txs: []Tx{x}})
+	g.do(Op{K: "snap"})
+	return r
+}
+
 // fixed scenarios: the witnesses of Proofs_Locator (h_bound, h_early, h_maxle, h_zero is left out: ts 0)
 func scenarios() map[string]Hist {
 	return map[string]Hist{
+		// restart + threshold decrease: tx 7@150 finalized in block (100,60); restart; the first list of
+		// the new manager (101,5) is evicted: maxTSInDB = 106 < 150; block (147,5) accepts tx 7 again
+		"restart": {Ops: []Op{{K: "root", G: 1, Ts: 50, Th: 10},
+			{K: "new", T: 0, Ts: 100, Th: 60}, {K: "add", T: 1, Txs: []Tx{{7, 150}}}, {K: "commit", T: 1}, {K: "snap"},
+			{K: "restart"}, {K: "snap"},
+			{K: "new", T: 1, Ts: 101, Th: 5}, {K: "add", T: 2, Txs: []Tx{{8, 103}}}, {K: "commit", T: 2}, {K: "snap"},
+			{K: "mhas", G: 1, ID: 7, Ts: 150},
+			{K: "new", T: 2, Ts: 112, Th: 5}, {K: "add", T: 3}, {K: "commit", T: 3}, {K: "snap"},
+			{K: "mhas", G: 1, ID: 7, Ts: 150},
+			{K: "new", T: 3, Ts: 147, Th: 5}, {K: "add", T: 4, Txs: []Tx{{7, 150}}}, {K: "snap"}}},
 		"bound": {Ops: []Op{{K: "root", G: 1, Ts: 50, Th: 10},
 			{K: "new", T: 0, Ts: 100, Th: 10}, {K: "add", T: 1, Txs: []Tx{{7, 110}}},
 			{K: "new", T: 1, Ts: 101, Th: 10}, {K: "add", T: 2, Txs: []Tx{{7, 110}}}, {K: "snap"}}},
@@ -887,7 +1028,7 @@ func gen_(c *hxlib.Ctx) {
 		c.Note("corpus directory corpus/C11 not found; built-in scenarios only")
 	}
 	sc := scenarios()
-	for _, name := range []string{"early", "maxle", "bound"} {
+	for _, name := range []string{"early", "maxle", "bound", "restart"} {
 		for _, svc := range []bool{false, true} {
 			h := sc[name]
 			h.Svc = svc
@@ -910,6 +1051,9 @@ func gen_(c *hxlib.Ctx) {
 	// 3. a few shapes of the open bound (the known finding)
 	for i := 0; i < 3; i++ {
 		add("bound-shape", func() *runner { return genBound(rnd, i == 2) }, nil)
+	}
+	for i := 0; i < 2; i++ {
+		add("restart-shape", func() *runner { return genRestart(rnd, i == 1) }, nil)
 	}
 	// 3b. real service transitions on a test node (tchain.go)
 	csc := chainScenarios()
@@ -939,7 +1083,10 @@ func gen_(c *hxlib.Ctx) {
 	}
 
 	// genuine violations first: hxlib keeps the first 20 oracle failures only
-	isViolation := func(cs hxlib.Case) bool { return cs.OracleErr != "" && !strings.Contains(cs.OracleErr, "ts==bts+th") }
+	isViolation := func(cs hxlib.Case) bool {
+		return cs.OracleErr != "" && !strings.Contains(cs.OracleErr, "ts==bts+th") &&
+			!strings.Contains(cs.OracleErr, "restart hides larger pre-restart bound")
+	}
 	for _, cs := range cases {
 		if isViolation(cs) {
 			c.Emit(cs)
